@@ -190,9 +190,281 @@ def rd_sig(c, j):
 
 
 # ------------------------------------------------------------------------------------------------
+# stream C: WASI calls on a real directory
+
+FS_NAMES = {n: i for i, n in enumerate("abcdef")}
+E = dict(BADF=8, EXIST=20, INVAL=28, IO=29, ISDIR=31, NOENT=44, NOTDIR=54, NOTEMPTY=55, NOTSUP=58, NOSYS=52, PERM=63)
+
+
+def fs_path(p): return zl([FS_NAMES[x] for x in p.split("/")])
+def fs_bytes(h): return zl(list(bytes.fromhex(h)))
+
+
+def fs_coq_op(op):
+    k = op[0]
+    if k == "open": return "PathOpen %s %s %d %d %d" % (zs(op[5] if len(op) > 5 else 3), fs_path(op[1]), op[2], op[3], op[4])
+    if k == "close": return "FdClose %s" % zs(op[1])
+    if k == "renumber": return "FdRenumber %s %s" % (zs(op[1]), zs(op[2]))
+    if k == "read": return "FdRead %s %s" % (zs(op[1]), zl(op[2]))
+    if k == "write": return "FdWrite %s [%s]" % (zs(op[1]), "; ".join(fs_bytes(h) for h in op[2]))
+    if k == "pread": return "FdPread %s %s %s" % (zs(op[1]), zl(op[2]), zs(op[3]))
+    if k == "pwrite": return "FdPwrite %s [%s] %s" % (zs(op[1]), "; ".join(fs_bytes(h) for h in op[2]), zs(op[3]))
+    if k == "seek": return "FdSeek %s %s %s" % (zs(op[1]), zs(op[2]), zs(op[3]))
+    if k == "tell": return "FdTell %s" % zs(op[1])
+    if k == "setsize": return "FdSetSize %s %s" % (zs(op[1]), zs(op[2]))
+    if k == "fstat": return "FdStat %s" % zs(op[1])
+    d = zs(op[-1]) if isinstance(op[-1], int) else "3"
+    if k == "mkdir": return "Mkdir %s %s" % (d, fs_path(op[1]))
+    if k == "rmdir": return "Rmdir %s %s" % (d, fs_path(op[1]))
+    if k == "unlink": return "Unlink %s %s" % (d, fs_path(op[1]))
+    if k == "rename": return "Rename %s %s %s %s" % (d, fs_path(op[1]), d, fs_path(op[2]))
+    if k == "stat": return "Stat %s %s" % (d, fs_path(op[1]))
+    raise ValueError(k)
+
+
+def fs_coq_obs(op, ob):
+    k = op[0]
+    if ob[0] != 0: return "OErr %s" % zs(ob[0])
+    if k == "open": return "OFd %s" % zs(ob[1])
+    if k in ("read", "pread"): return "OData %s" % fs_bytes(ob[2])
+    if k in ("write", "pwrite", "seek", "tell"): return "ONum %s" % zs(ob[1])
+    if k in ("fstat", "stat"): return "OStat %d %d" % (ob[1], ob[2])
+    return "OOk"
+
+
+def fs_coq_case(c):
+    tree = "; ".join("(%s, %s)" % (fs_path(t[0]), "None" if t[1] == "dir" else "Some %s" % fs_bytes(t[2])) for t in (c["tree"] or []))
+    return "([%s], [%s], [%s])" % ("; ".join(fs_coq_op(o) for o in c["ops"]),
+                                   "; ".join(fs_coq_obs(o, b) for o, b in zip(c["ops"], c["obs"])), tree)
+
+
+class _File:
+    def __init__(self): self.data = bytearray()
+
+
+def fs_oracle(c):
+    """POSIX-style reference written directly in Python (independent of the Coq model): descriptors
+    are lowest-free and live until closed/renumbered, every read sees what was written through any
+    descriptor of the same file, directory changes are seen by later lookups, failed calls change
+    nothing. Failures are judged by class (must fail / must succeed); only EBADF for a descriptor
+    that is not open is checked exactly. Returns the first contradiction or None."""
+    tree = {}                                   # path tuple -> "dir" | _File
+    fds = {0: "stdio", 1: "stdio", 2: "stdio", 3: dict(kind="pre")}
+
+    def node(p): return "dir" if p == () else tree.get(p)
+
+    def resolve(p):
+        for i in range(1, len(p)):
+            n = node(p[:i])
+            if n is None: return "noent"
+            if n != "dir": return "notdir"
+        n = node(p)
+        return "free" if n is None else n
+
+    def base(fd):
+        e = fds.get(fd) if fd >= 0 else None
+        if e is None: return "badf"
+        if e == "stdio" or e["kind"] == "file": return "notdir"
+        return () if e["kind"] == "pre" else e["name"]
+
+    def children(p): return any(len(q) > len(p) and q[:len(p)] == p for q in tree)
+
+    for j, (op, ob) in enumerate(zip(c["ops"], c["obs"])):
+        k, en = op[0], ob[0]
+        ok = en == 0
+        def bad(msg): return "op %d %s -> %s: %s" % (j, op, ob, msg)
+        if en < 0:
+            return bad("trap/panic")
+        # ---- descriptor operations
+        if k in ("close", "renumber", "read", "write", "pread", "pwrite", "seek", "tell", "setsize", "fstat"):
+            fd = op[1]
+            e = fds.get(fd) if fd >= 0 else None
+            if e is None:
+                if en != E["BADF"]: return bad("descriptor is not open, expected EBADF")
+                continue
+            if en == E["BADF"] and (k in ("close", "seek", "tell", "fstat") or (k == "renumber" and op[2] >= 0)):
+                return bad("descriptor %d is open (opened earlier, not closed since) but the call says EBADF" % fd)
+            if k == "close":
+                if not ok: return bad("closing an open descriptor failed")
+                del fds[fd]
+                continue
+            if k == "renumber":
+                to = op[2]
+                pre = lambda x: x == "stdio" or x["kind"] == "pre"
+                must_fail = to < 0 or pre(e) or (fd != to and to in fds and pre(fds[to]))
+                if ok == must_fail: return bad("renumber %s" % ("must fail" if must_fail else "must succeed"))
+                if ok and fd != to:
+                    fds[to] = e
+                    del fds[fd]
+                continue
+            if e == "stdio":
+                continue                        # stdio streams are outside the property
+            isfile = e["kind"] == "file"
+            if k in ("read", "pread"):
+                total = sum(op[2])
+                if total == 0:
+                    if not ok: return bad("empty read failed")
+                    continue
+                off = op[3] if k == "pread" else (e["off"] if isfile else 0)
+                must_fail = (not isfile) or (not e["r"]) or off < 0
+                if ok == must_fail: return bad("read %s" % ("must fail" if must_fail else "must succeed"))
+                if ok:
+                    want = bytes(e["file"].data[off:off + total])
+                    if bytes.fromhex(ob[2]) != want or ob[1] != len(want):
+                        return bad("read returned %s, the file holds %s at offset %d" % (ob[2], want.hex(), off))
+                    if k == "read": e["off"] += len(want)
+                continue
+            if k in ("write", "pwrite"):
+                data = b"".join(bytes.fromhex(h) for h in op[2])
+                if len(data) == 0:
+                    if ok and ob[1] != 0: return bad("empty write reported %d bytes" % ob[1])
+                    continue                    # an empty write on a directory may or may not fail
+                if k == "write":
+                    must_fail = (not isfile) or (not e["w"])
+                    if ok == must_fail: return bad("write %s" % ("must fail" if must_fail else "must succeed"))
+                    if ok:
+                        f = e["file"]
+                        pos = len(f.data) if e["app"] else e["off"]
+                        if pos > len(f.data): f.data.extend(bytes(pos - len(f.data)))
+                        f.data[pos:pos + len(data)] = data
+                        e["off"] = pos + len(data)
+                        if ob[1] != len(data): return bad("short write")
+                else:
+                    off = op[3]
+                    must_fail = (not isfile) or (not e["w"]) or off < 0
+                    if must_fail and ok: return bad("pwrite must fail")
+                    if not must_fail and not ok and not e["app"]: return bad("pwrite must succeed")
+                    if ok:                      # (wazero refuses pwrite on an append descriptor; POSIX would append)
+                        f = e["file"]
+                        if off > len(f.data): f.data.extend(bytes(off - len(f.data)))
+                        f.data[off:off + len(data)] = data
+                        if ob[1] != len(data): return bad("short write")
+                continue
+            if k in ("seek", "tell"):
+                off, wh = (op[2], op[3]) if k == "seek" else (0, 1)
+                if not isfile:
+                    if ok: return bad("seek on a directory must fail")
+                    continue
+                new = None if wh > 2 else (off if wh == 0 else e["off"] + off if wh == 1 else len(e["file"].data) + off)
+                must_fail = new is None or new < 0
+                if ok == must_fail: return bad("seek %s" % ("must fail" if must_fail else "must succeed"))
+                if ok:
+                    if ob[1] != new: return bad("new offset %d, expected %d" % (ob[1], new))
+                    e["off"] = new
+                continue
+            if k == "setsize":
+                must_fail = (not isfile) or op[2] < 0 or not e["w"]
+                if ok == must_fail: return bad("set_size %s" % ("must fail" if must_fail else "must succeed"))
+                if ok:
+                    f = e["file"]
+                    if op[2] < len(f.data): del f.data[op[2]:]
+                    else: f.data.extend(bytes(op[2] - len(f.data)))
+                continue
+            if k == "fstat":
+                if not ok: return bad("fd_filestat_get on an open descriptor failed")
+                want = [0, 4, len(e["file"].data)] if isfile else [0, 3, 0]
+                if ob != want: return bad("expected %s" % want)
+                continue
+        # ---- path operations
+        dirfd = op[5] if (k == "open" and len(op) > 5) else (op[-1] if isinstance(op[-1], int) and k != "open" else 3)
+        b = base(dirfd)
+        if b == "badf":
+            if en != E["BADF"]: return bad("directory descriptor is not open, expected EBADF")
+            continue
+        if b == "notdir":
+            if ok: return bad("directory descriptor is a file")
+            continue
+        full = b + tuple(op[1].split("/"))
+        r = resolve(full)
+        if k == "open":
+            ofl, fdf, rights = op[2], op[3], op[4]
+            creat, isdir, excl, trunc = bool(ofl & 1), bool(ofl & 2), bool(ofl & 4), bool(ofl & 8)
+            app = bool(fdf & 1)
+            rr, ww = bool(rights & 2), bool(rights & 64)
+            if not rr and not ww: rr, ww = True, (trunc or creat or app)
+            elif ww and not rr: pass
+            if isdir and creat: must_fail = True
+            elif r in ("noent", "notdir"): must_fail = True
+            elif r == "free": must_fail = not creat
+            elif r == "dir": must_fail = creat or ww or trunc
+            else: must_fail = (creat and excl) or isdir
+            if ok == must_fail: return bad("path_open %s (path resolves to %s)" % ("must fail" if must_fail else "must succeed", r if isinstance(r, str) else "file"))
+            if ok:
+                want = 0
+                while want in fds: want += 1
+                if ob[1] != want: return bad("opened descriptor %d, lowest free is %d" % (ob[1], want))
+                if r == "dir":
+                    fds[want] = dict(kind="dir", name=full)
+                else:
+                    f = r if isinstance(r, _File) else _File()
+                    if r == "free": tree[full] = f
+                    if trunc: del f.data[:]
+                    fds[want] = dict(kind="file", file=f, off=0, app=app, r=rr or not ww, w=ww)
+            continue
+        if k == "mkdir":
+            must_fail = r != "free"
+            if ok == must_fail: return bad("mkdir %s" % ("must fail" if must_fail else "must succeed"))
+            if ok: tree[full] = "dir"
+            elif isinstance(r, _File) or r == "dir":
+                if en != E["EXIST"]: return bad("path exists, expected EEXIST")
+        elif k == "rmdir":
+            must_fail = r != "dir" or children(full)
+            if ok == must_fail: return bad("rmdir %s" % ("must fail" if must_fail else "must succeed"))
+            if ok: del tree[full]
+            elif r == "dir" and en != E["NOTEMPTY"]: return bad("directory not empty, expected ENOTEMPTY")
+        elif k == "unlink":
+            must_fail = not isinstance(r, _File)
+            if ok == must_fail: return bad("unlink %s" % ("must fail" if must_fail else "must succeed"))
+            if ok: del tree[full]
+        elif k == "stat":
+            must_fail = r in ("noent", "notdir", "free")
+            if ok == must_fail: return bad("filestat_get %s" % ("must fail" if must_fail else "must succeed"))
+            if ok:
+                want = [0, 3, 0] if r == "dir" else [0, 4, len(r.data)]
+                if ob != want: return bad("expected %s" % want)
+            elif r in ("noent", "free") and en != E["NOENT"]: return bad("expected ENOENT")
+        elif k == "rename":
+            new = b + tuple(op[2].split("/"))
+            r2 = resolve(new)
+            if full == new:
+                # POSIX: ENOENT when the path does not exist; wazero short-cuts identical paths to success
+                if not ok and not (r in ("noent", "notdir", "free")): return bad("rename onto itself failed")
+                continue
+            inside = len(new) > len(full) and new[:len(full)] == full
+            above = len(full) > len(new) and full[:len(new)] == new
+            if r in ("noent", "notdir", "free") or r2 in ("noent", "notdir"): must_fail = True
+            elif inside or above: must_fail = True
+            elif r2 == "free": must_fail = False
+            elif r == "dir": must_fail = r2 != "dir" or children(new)
+            else: must_fail = r2 == "dir"
+            if ok == must_fail: return bad("rename %s" % ("must fail" if must_fail else "must succeed"))
+            if ok:
+                moved = {q: n for q, n in tree.items() if q[:len(full)] == full}
+                for q in moved: del tree[q]
+                tree.pop(new, None)
+                for q, n in moved.items(): tree[new + q[len(full):]] = n
+    # final host tree
+    want = sorted(["/".join(p)] + (["dir"] if n == "dir" else ["file", bytes(n.data).hex()]) for p, n in tree.items())
+    got = sorted([t[0]] + t[1:] for t in (c["tree"] or []))
+    if want != got:
+        return "final-tree: host tree %s differs from the expected %s" % (got[:8], want[:8])
+    return None
+
+
+def fs_sig(c, j):
+    ops = c["ops"]
+    op = ops[j] if j is not None and 0 <= j < len(ops) else None
+    sig = {"stream": "fs", "op": op[0] if op else "final-tree"}
+    if op and j < len(c["obs"]):
+        sig["errno"] = c["obs"][j][0]
+    return sig
+
+
+# ------------------------------------------------------------------------------------------------
 
 STREAMS = {
     "table": dict(mod="Sys.DescTable", case=table_coq_case, oracle=table_oracle, sig=table_sig, shard=150),
+    "fs": dict(mod="Sys.FsModel", case=fs_coq_case, oracle=fs_oracle, sig=fs_sig, shard=400),
     "readdir": dict(mod="Sys.Dirent", case=rd_coq_case, oracle=rd_oracle, sig=rd_sig, shard=400, dirs=rd_dir_def, prelude=PACK_PRELUDE),
 }
 
@@ -240,7 +512,9 @@ def run(tier, seed):
         ck.violation("harness-build", {"kind": "build"}, {"log": log[-3000:]}, no_input=True)
         return ck.finish()
     n_dirs, n_scripts = (60, 5) if quick else (1500, 12)
-    rc, out = sh([binp, "-seed", str(seed), "-table", str(n_table), "-dirs", str(n_dirs), "-scripts", str(n_scripts)], timeout=3000)
+    n_fs = 300 if quick else 8000
+    rc, out = sh([binp, "-seed", str(seed), "-table", str(n_table), "-dirs", str(n_dirs), "-scripts", str(n_scripts),
+                  "-fs", str(n_fs), "-compiler-every", "10"], timeout=3000)
     by = {k: [] for k in STREAMS}
     for ln in out.split("\n"):
         if ln.startswith("{"):
